@@ -1,25 +1,23 @@
+import glob, os, runpy
+
 NOTES = ("Machine-checked proof in Coq 8.16.1 on hand-written executable models; every run re-checks the theorems, "
          "regenerates translator obligations from /repo, and replays implementation traces through the extracted model. "
          "See DESIGN.md.")
 
-ENGINES = [
-    dict(name="arith", path="coq/Model/Arith.v", serves_properties=["C20"],
-         kind_free_text="Gallina model of pkg/math, byteslice.index, internal/gfd + genintfun translator + drv-arith"),
-]
+ALL = ["C%02d" % i for i in range(1, 21)]
+CHECKS, ENGINES = {}, []
+_seen = {}
+for _f in sorted(glob.glob(os.path.join(os.path.dirname(os.path.abspath(__file__)), "manifest.d", "C*.py"))):
+    _m = runpy.run_path(_f)
+    CHECKS[os.path.basename(_f)[:-3]] = _m["CHECK"]
+    _e = _m.get("ENGINE")
+    if _e:
+        if _e["name"] in _seen:
+            _seen[_e["name"]]["serves_properties"] = sorted(set(_seen[_e["name"]]["serves_properties"]) | set(_e["serves_properties"]))
+        else:
+            _seen[_e["name"]] = _e
+            ENGINES.append(_e)
 
-CHECKS = {
-    "C20": dict(
-        engine="arith", design_ref="4 / C20",
-        text="Full proof over the whole int64 range (Ceil/Floor/Closest/IsPowerOfTwo, size-class index, GFD pack/unpack) "
-             "on a model that the translator regenerates from the source each run (obligation Gen.f = Model.f), plus "
-             "differential execution of the real functions against the extracted model and a closed-form oracle.",
-        note="Assumes math/bits.Len = log2+1 and 64-bit int; translator genintfun and the Go harness are trusted; "
-             "GFD model is hand-written and tied by differential runs only.",
-        technique="Coq proof (induction-free arithmetic/bit lemmas, lia) + go/ast translator obligations + differential traces",
-    ),
-}
-
-_WIP = "not yet built in this round (work in progress; planned per DESIGN.md section 9)"
-NOT_APPLICABLE = {p: _WIP for p in
-                  ["C01", "C02", "C03", "C04", "C05", "C06", "C07", "C08", "C09", "C10", "C11", "C12", "C13",
-                   "C14", "C15", "C16", "C17", "C18", "C19"]}
+_WIP = "not yet built (work in progress; planned per DESIGN.md section 9)"
+_REASONS = {}
+NOT_APPLICABLE = {p: _REASONS.get(p, _WIP) for p in ALL if p not in CHECKS}
